@@ -11,6 +11,8 @@ namespace mp {
 
 std::unique_ptr<BasicModelManager>
 CreateRecModelMgr(RecCommon &, Env &, pre::BasicValuePresolver *&);
+/// C20: log every registered link entry with its final extent (defined in recmodelmgr.cc)
+void RecLogFinalLinks(pre::BasicValuePresolver &, RecState &);
 
 RecBackend::RecBackend() {
   set_st(&st_);
@@ -51,7 +53,8 @@ ArrayRef<double> RecBackend::GetObjectiveValues() {
 
 void RecBackend::Solve() {
   st_.Log("{\"ev\":\"solve\"}");
-  RecDumpLinks(GetValuePresolver());
+  RecDumpLinks(GetValuePresolver());                       // C19: RECSOLVER_LINKS=<file>
+  if (const char *l = std::getenv("RECSOLVER_LINKS")) if (*l == '1') RecLogFinalLinks(GetValuePresolver(), st_);  // C20: RECSOLVER_LINKS=1
   if (st_.throw_in_solve == 1) throw std::runtime_error("scripted runtime_error in Solve");
   if (st_.throw_in_solve == 2) throw mp::Error("scripted mp::Error in Solve", st_.code);
   if (st_.throw_in_solve == 3) throw mp::UnsupportedError("scripted UnsupportedError in Solve");
